@@ -43,10 +43,16 @@ impl AckFrequencyState {
         // Use the peer's max_ack_delay if no custom max_ack_delay was provided in the config
         let min_ack_delay =
             Duration::from_micros(peer_params.min_ack_delay.map_or(0, |x| x.into()));
+        // The peer may legitimately announce a `min_ack_delay` above both the RTT and
+        // `MIN_AUTOMATIC_ACK_DELAY` (it only has to stay below its `max_ack_delay`): never let the
+        // upper bound fall below the lower one, which `clamp` answers with a panic.
         config
             .max_ack_delay
             .unwrap_or(self.peer_max_ack_delay)
-            .clamp(min_ack_delay, rtt.max(MIN_AUTOMATIC_ACK_DELAY))
+            .clamp(
+                min_ack_delay,
+                rtt.max(MIN_AUTOMATIC_ACK_DELAY).max(min_ack_delay),
+            )
     }
 
     /// Returns the `max_ack_delay` for the purposes of calculating the PTO
